@@ -7,6 +7,9 @@ import runner
 from framework import Outcome
 
 
+F16 = "F16-invalidation-flags-differ-between-producer-and-consumer"
+
+
 class CollProperty:
     level = "exploration"
     san = False
@@ -86,7 +89,8 @@ class C04(CollProperty):
         v, stats = oc.check_flags(sc, log)
         stats["cycles"] = len(log["cycles"])
         stats["simulated_time_us"] = sc["window"][1]
-        return Outcome(violation=dict(clause=v[0], detail=v[1]) if v else None, stats=stats, digest=res.digest,
+        viol = dict(clause=v[0], detail=v[1]) if v else (dict(clause="known_class:F16", detail="producer and consumer disagree on modified / last_modified_time at an explicit invalidation", known=F16) if stats.get("known_F16") else None)
+        return Outcome(violation=viol, stats=stats, digest=res.digest,
                        nontrivial=stats["probe_readings"] >= 5 and stats["probe_quiet_cycle_readings"] > 0,
                        sample=dict(scenario=text, log_head=res.raw[:1200]), shape=runner.h64(text))
 
